@@ -33,7 +33,8 @@ func runC17(c *eng.Ctx, tier string) {
 	// R-C17-7: the go statement(s) in New
 	var task *ssa.Function
 	var goSites []*ssa.Go
-	eng.Instrs(newFn, func(in ssa.Instruction) {
+	// (the start-up may be in a helper New calls)
+	eng.InstrsDeep(newFn, func(_ *ssa.Function, in ssa.Instruction) {
 		if g, ok := in.(*ssa.Go); ok {
 			goSites = append(goSites, g)
 		}
@@ -52,7 +53,7 @@ func runC17(c *eng.Ctx, tier string) {
 		return
 	}
 	okGate := false
-	for _, cond := range eng.FactsAt(gs) {
+	for _, cond := range eng.FactsX(gs) {
 		op, x, y, ok := cond.Cmp()
 		if !ok || op != token.NEQ {
 			continue
@@ -66,7 +67,7 @@ func runC17(c *eng.Ctx, tier string) {
 	c.Check(okGate, "R-C17-7", newFn, gs.Pos(), eng.InstrStr(gs), "the backup task is started only when Config.BackupBucket != \"\"", "holding here: "+eng.FactsString(gs))
 	ctxOK := false
 	for _, a := range eng.CallArgs(gs.Common()) {
-		if prm, ok := eng.Origin(a).(*ssa.Parameter); ok && prm.Parent() == newFn && eng.IsNamed(prm.Type(), "context", "Context") {
+		if prm, ok := eng.OriginX(a).(*ssa.Parameter); ok && prm.Parent() == newFn && eng.IsNamed(prm.Type(), "context", "Context") {
 			ctxOK = true
 		}
 	}
@@ -172,6 +173,129 @@ func runC17(c *eng.Ctx, tier string) {
 			good[q.sel.Block()] = true
 		}
 	}
+	// the wait may be a call of a small helper: func(ctx, d) bool whose body is
+	// one blocking select on <-ctx.Done() and <-time.After(d), answering a
+	// constant on each branch; the task must return on the "context ended" answer
+	eng.Instrs(task, func(in ssa.Instruction) {
+		call, ok := in.(*ssa.Call)
+		if !ok {
+			return
+		}
+		h := eng.Callee(&call.Call)
+		if !eng.IsHelper(task, h) || len(h.Params) != len(call.Call.Args) {
+			return
+		}
+		var hsel *ssa.Select
+		nSel := 0
+		eng.Instrs(h, func(x ssa.Instruction) {
+			if sl, isSel := x.(*ssa.Select); isSel {
+				hsel = sl
+				nSel++
+			}
+		})
+		if nSel != 1 || !hsel.Blocking || len(hsel.States) != 2 {
+			return
+		}
+		doneIdx, durArg := -1, ssa.Value(nil)
+		for i, st := range hsel.States {
+			if st.Dir != types.RecvOnly {
+				return
+			}
+			cc, _ := eng.TupleCall(st.Chan)
+			if cc == nil {
+				return
+			}
+			argOf := func(v ssa.Value) ssa.Value {
+				prm, isP := eng.Origin(v).(*ssa.Parameter)
+				if !isP {
+					return nil
+				}
+				for j, q := range h.Params {
+					if q == prm {
+						return call.Call.Args[j]
+					}
+				}
+				return nil
+			}
+			switch {
+			case cc.Call.IsInvoke() && cc.Call.Method.Name() == "Done":
+				if a := argOf(cc.Call.Value); a != nil && eng.Origin(a) == ssa.Value(ctxP) {
+					doneIdx = i
+				}
+			case eng.CalleeIs(&cc.Call, "time", "After"):
+				durArg = argOf(cc.Call.Args[0])
+			}
+		}
+		if doneIdx < 0 || durArg == nil {
+			return
+		}
+		// the helper's answer on the Done branch
+		var doneAns *bool
+		for _, r := range eng.Returns(h) {
+			k, isC := eng.Origin(eng.RetVals(r)[0]).(*ssa.Const)
+			if !isC || k.Value == nil {
+				return
+			}
+			for _, cond := range eng.FactsAt(r) {
+				if op, x, y, isCmp := cond.Cmp(); isCmp && op == token.EQL {
+					if ex, isEx := eng.Origin(x).(*ssa.Extract); isEx && ex.Tuple == ssa.Value(hsel) && ex.Index == 0 {
+						if kk, isK := eng.ConstInt(y); isK && int(kk) == doneIdx {
+							b := k.Value.String() == "true"
+							doneAns = &b
+						}
+					}
+				}
+			}
+		}
+		if doneAns == nil {
+			// the Done case may be the else of `idx == timerIdx`: take the return not on the timer branch
+			for _, r := range eng.Returns(h) {
+				k, _ := eng.Origin(eng.RetVals(r)[0]).(*ssa.Const)
+				onTimer := false
+				for _, cond := range eng.FactsAt(r) {
+					if op, x, y, isCmp := cond.Cmp(); isCmp && op == token.EQL {
+						if ex, isEx := eng.Origin(x).(*ssa.Extract); isEx && ex.Tuple == ssa.Value(hsel) {
+							if kk, isK := eng.ConstInt(y); isK && int(kk) != doneIdx {
+								onTimer = true
+							}
+						}
+					}
+				}
+				if !onTimer && k != nil && k.Value != nil {
+					b := k.Value.String() == "true"
+					doneAns = &b
+				}
+			}
+		}
+		if doneAns == nil {
+			return
+		}
+		// in the task: the edge on which the call answered "context ended" leads straight to return
+		okRet := false
+		eng.Instrs(task, func(x ssa.Instruction) {
+			ifi, isIf := x.(*ssa.If)
+			if !isIf {
+				return
+			}
+			for i, succ := range ifi.Block().Succs {
+				v, truth, isB := eng.CondOf(ifi.Cond, i == 0).Bool()
+				if !isB || eng.Origin(v) != ssa.Value(call) || truth != *doneAns {
+					continue
+				}
+				re, _ := eng.SearchBlock(task, succ, nil, nil, func(y ssa.Instruction) bool { return y.Block() == call.Block() })
+				ret, _ := eng.SearchBlock(task, succ, nil, nil, eng.IsReturn)
+				if re == nil && ret != nil {
+					okRet = true
+				}
+			}
+		})
+		if !okRet {
+			return
+		}
+		good[call.Block()] = true
+		d, isC := eng.ConstInt(durArg)
+		c.Check(isC && time.Duration(d) >= time.Minute, "R-C17-2", task, call.Pos(), "wake-up source of "+eng.CallStr(&call.Call), "besides cancellation the task only wakes on time.After(d), constant d >= 1m (at most one upload a minute)", "d = "+eng.ValStr(durArg))
+	})
 	// R-C17-1
 	cyc := eng.CycleAvoiding(task, func(b *ssa.BasicBlock) bool { return good[b] })
 	if cyc != nil {
